@@ -180,7 +180,26 @@ func runC27(c *Ctx) {
 			}
 			return len(leaves) == len(eras)
 		}
-		c.GuardSuccess("G2-change", "distributeDPOSReward|change >= 0", d, "reward - realDPOSReward >= 0", condCmp(isChange, isConstInt(0), token.GEQ, true), G1Opt{HasIdx: true, Idx: 2})
+		isReal := func(v ssa.Value) bool {
+			var leaves []ssa.Value
+			phiLeaves(ssau.Unwrap(v), map[ssa.Value]bool{}, &leaves)
+			if len(leaves) != len(eras) {
+				return false
+			}
+			for _, l := range leaves {
+				ex, ok := l.(*ssa.Extract)
+				if !ok || ex.Index != 1 || !ssau.IsCallTo(ex, eraP) {
+					return false
+				}
+			}
+			return true
+		}
+		c.GuardSuccess("G2-change", "distributeDPOSReward|change >= 0", d, "reward - realDPOSReward >= 0 (or realDPOSReward <= reward)", func(i *ssa.If) (bool, bool) {
+			if m, arm := condCmp(isChange, isConstInt(0), token.GEQ, true)(i); m {
+				return m, arm
+			}
+			return condCmp(isReal, func(v ssa.Value) bool { return paramNamed(v, "reward") }, token.LEQ, true)(i)
+		}, G1Opt{HasIdx: true, Idx: 2})
 		// the returned change is that difference
 		okRet := false
 		ec := c.classifier(d, G1Opt{HasIdx: true, Idx: 2})
